@@ -38,6 +38,8 @@ CLAIMED = {
          "Lean determinism theorems + lock-step differential (memory vs SQLite vs model)"),
  "C14": ("proof", "Lean: every operator-mutation record of every model run satisfies C14.stepOK (exact frame, newest-first capped selection, preview = real, counts exact); tie: operator-profile traces with tie timestamps", "§7 C14",
          "Lean proof over the queue model + differential correspondence (memory, SQLite)"),
+ "C18": ("proof", "Lean: for every event list whose give-up points precede its writes a failed attempt leaves the live state unchanged, a successful one puts every configuration field at the new version, and with one write section every observable state is entirely old or entirely new - instantiated on the structure of reloadConfig REGENERATED from the Go source each run (fails-first, single write section, all config fields covered: decide); file replacement: at every truncation point the path holds the complete old or new content, the management rewrite ends with new iff applied else the previous bytes; tie: failure injection through the real reloadConfig (unreadable/parse/compile/secret/restart), probe-set fingerprints before/after/at every hook point inside a reload, requests held between accessor calls, directory snapshots and SIGKILLed children at every point of writeFileAtomic (app, MCP config_apply, management upsert/delete with rollback). Known finding: a request straddling a reload between two accessor calls (per-request snapshot missing)", "§7 C18",
+         "translator-regenerated reload structure + Lean theorems + failure/schedule/crash injection on the real code"),
 }
 NOTE = "Trusted: Lean kernel (axioms propext/Classical.choice/Quot.sound only, audited each run), the hand-written model, the Go correspondence harness and generators (ours), Go stdlib, SQLite engine. PostgreSQL not executable here."
 
